@@ -13,6 +13,9 @@ Definition err_code (e : ferr) : nat :=
 
 Definition two_m28 : Q := 1 # 268435456.
 Definition two_m20 : Q := 1 # 1048576.
+(* width of the band around det = 0 in which either branch of the similarity fit is accepted: the code treats
+   |det| <= 1e-10 * scale as zero (proper branch); 2^-30 = 9.3e-10 leaves room for rounding of det itself *)
+Definition two_m30 : Q := 1 # 1073741824.
 Definition two_m50 : Q := 1 # 1125899906842624.
 
 (* largest coordinate magnitude (the natural unit of the problem); 1 for empty / all-zero input *)
@@ -24,7 +27,7 @@ Definition rs_agree (g : geom) (d : rsdata) (sc : Q) (i00 i01 i10 i11 is0 is1 : 
   let tm := two_m28 * Qmax 1 (Qmax (Qabs i00) (Qabs i01)) in
   let ts := tm * sc in
   let f := Qltb (i00 * i11 - i01 * i10) 0 in
-  let epsd := two_m20 * r_scale_det d in
+  let epsd := two_m30 * r_scale_det d in
   let okf := if f then Qleb (r_det d) epsd else Qleb (- epsd) (r_det d) in
   let form := if f then qclose tm i10 i01 && qclose tm i11 (- i00)
               else qclose tm i10 (- i01) && qclose tm i11 i00 in
